@@ -9,6 +9,8 @@
 (declare-fun s_cat (Str Str) Str)
 (assert (forall ((a Str) (b Str)) (! (= (s_len (s_cat a b)) (+ (s_len a) (s_len b))) :pattern ((s_cat a b)))))
 (assert (forall ((a Str) (b Str) (i Int)) (! (=> (and (<= 0 i) (< i (+ (s_len a) (s_len b)))) (= (s_at (s_cat a b) i) (ite (< i (s_len a)) (s_at a i) (s_at b (- i (s_len a)))))) :pattern ((s_at (s_cat a b) i)))))
+; strings are values: concatenation with an empty string is the other operand
+(assert (forall ((a Str) (b Str)) (! (and (=> (= (s_len a) 0) (= (s_cat a b) b)) (=> (= (s_len b) 0) (= (s_cat a b) a))) :pattern ((s_cat a b)))))
 (declare-datatypes ((Slice 0)) (((mk-slice (sl.base Int) (sl.off Int) (sl.len Int) (sl.cap Int)))))
 (define-fun slice_wf ((s Slice)) Bool (and (<= 0 (sl.off s)) (<= 0 (sl.len s)) (<= (sl.len s) (sl.cap s)) (<= 0 (sl.base s)) (=> (= (sl.base s) 0) (and (= (sl.off s) 0) (= (sl.cap s) 0)))))
 (declare-fun refkind (Int) Int)
